@@ -32,7 +32,20 @@ Inductive pa :=
 | PMeth (m : string)
 | PBin (op : string) (a b : pa).
 Record pred := { p_op : string; p_l : pa; p_r : pa }.
-Record cnt := { k_coll : collref; k_preds : list pred }.
+(* the terminal over the filtered collection: Count() or Select(lambda x: body).Sum() *)
+Inductive aggk := ACount | ASum (body : pa).
+Record cnt := { k_coll : collref; k_preds : list pred; k_agg : aggk }.
+
+(* static type of a predicate-level arithmetic expression: methods without declaration are double *)
+Fixpoint pa_type (a : pa) : string :=
+  match a with
+  | PInt _ => "int"
+  | PDbl _ _ _ | PMeth _ => "double"
+  | PBin _ x y => if String.eqb (pa_type x) "int" && String.eqb (pa_type y) "int" then "int" else "double"
+  end.
+(* accumulator type: int for Count; for Sum the type of the summand (most_accurate_type [int, summand]) *)
+Definition agg_type (k : cnt) : string :=
+  match k_agg k with ACount => "int" | ASum body => pa_type body end.
 (* event-level operators: + - * and the six comparisons *)
 Inductive bop := OAdd | OSub | OMul | OLt | OLe | OGt | OGe | OEq | ONe.
 Definition op_str (o : bop) : string :=
@@ -80,14 +93,17 @@ Definition cv_name (k : cnt) (n : nat) : string := nm (c_base (k_coll k)) n.
 Definition iv_name (n : nat) : string := nm "i_obj" (S n).
 Definition agg_name (n : nat) : string := nm "aggResult" (S (S n)).
 
-Definition count_update (agg : string) : stmt := SSet agg None (CBin "+" (CVar agg) (CInt 1)).
+Definition agg_summand (iv : string) (arrow : bool) (g : aggk) : cexp :=
+  match g with ACount => CInt 1 | ASum body => tpa iv arrow body end.
+Definition agg_update (agg : string) (summand : cexp) : stmt := SSet agg None (CBin "+" (CVar agg) summand).
 
 Definition tcount_decls (k : cnt) (n : nat) : list decl :=
   [{| d_type := c_ctype (k_coll k); d_name := cv_name k n; d_init := None |};
-   {| d_type := "int"; d_name := agg_name n; d_init := Some (CInt 0) |}].
+   {| d_type := agg_type k; d_name := agg_name n; d_init := Some (CInt 0) |}].
 Definition tcount_loop (k : cnt) (n : nat) : stmt :=
   SFor (iv_name n) (CDeref (CVar (cv_name k n)))
-       (Blk [] (one_stmt (fi_guards (map (tpred (iv_name n) (c_arrow (k_coll k))) (k_preds k)) (count_update (agg_name n))))).
+       (Blk [] (one_stmt (fi_guards (map (tpred (iv_name n) (c_arrow (k_coll k))) (k_preds k))
+                                    (agg_update (agg_name n) (agg_summand (iv_name n) (c_arrow (k_coll k)) (k_agg k)))))).
 Definition tcount_stmts (idiom : string) (k : cnt) (n : nat) : stmts :=
   SCons (SFetch idiom (cv_name k n) (c_ctype (k_coll k)) (c_bank (k_coll k))
                 (fetch_lines idiom (c_ctype (k_coll k)) (c_bank (k_coll k))))
@@ -107,7 +123,8 @@ Fixpoint te (idiom : string) (e : ex) (n : nat) : list decl * stmts * cexp * nat
 (* the type the translator assigns (most_accurate_type over int/double; comparisons are bool) *)
 Fixpoint ex_type (e : ex) : string :=
   match e with
-  | EInt _ | ECount _ => "int"
+  | EInt _ => "int"
+  | ECount k => agg_type k
   | EBin o a b => if bop_is_cmp o then "bool"
                    else if String.eqb (ex_type a) "int" && String.eqb (ex_type b) "int" then "int" else "double"
   end.
@@ -138,22 +155,28 @@ Fixpoint passes (ev : event) (v : value) (ps : list pred) : res bool :=
   | [] => ROk true
   | p :: r => rdo b <- dpred ev v p; if b then passes ev v r else ROk false
   end.
-Fixpoint count_loop (ev : event) (ps : list pred) (l : list value) (a : Z) : res Z :=
+(* one step of the aggregate on a passing element: acc + 1, or acc + body(v), stored in the accumulator's type *)
+Definition agg_step (ev : event) (ty : string) (g : aggk) (acc v : value) : res value :=
+  rdo x <- match g with ACount => ROk (VInt 1) | ASum body => dpa ev v body end;
+  rdo s <- arith "+" acc x;
+  ROk (conv ty s).
+Fixpoint agg_loop (ev : event) (ty : string) (g : aggk) (ps : list pred) (l : list value) (acc : value) : res value :=
   match l with
-  | [] => ROk a
-  | v :: r => rdo b <- passes ev v ps; count_loop ev ps r (if b then a + 1 else a)%Z
+  | [] => ROk acc
+  | v :: r => rdo b <- passes ev v ps;
+              if b then rdo acc' <- agg_step ev ty g acc v; agg_loop ev ty g ps r acc' else agg_loop ev ty g ps r acc
   end.
-Definition dcount (ev : event) (k : cnt) : res Z :=
+Definition dcount (ev : event) (k : cnt) : res value :=
   match assoc_ss (c_ctype (k_coll k), c_bank (k_coll k)) (ev_colls ev) with
   | None => RFault FRetrieve
-  | Some (VVec l) => count_loop ev (k_preds k) l 0
+  | Some (VVec l) => agg_loop ev (agg_type k) (k_agg k) (k_preds k) l (conv (agg_type k) (VInt 0))
   | Some VNull => RFault FNullDeref
   | Some _ => RStuck (KType "the bank does not hold a collection")
   end.
 Fixpoint de (ev : event) (e : ex) : res value :=
   match e with
   | EInt z => ROk (VInt z)
-  | ECount k => rdo z <- dcount ev k; ROk (VInt z)
+  | ECount k => dcount ev k
   | EBin o a b => rdo x <- de ev a; rdo y <- de ev b; arith (op_str o) x y
   end.
 
@@ -185,11 +208,14 @@ Definition d_pred (s : sexp) : option pred :=
   end.
 Definition d_cnt (s : sexp) : option cnt :=
   match s with
-  | SList [SAtom base; SAtom ct; SAtom bank; ar; SList ps] =>
-      match d_bool ar, d_list d_pred ps with
-      | Some ar', Some ps' =>
-          Some {| k_coll := {| c_base := base; c_ctype := ct; c_bank := bank; c_arrow := ar' |}; k_preds := ps' |}
-      | _, _ => None
+  | SList [SAtom base; SAtom ct; SAtom bank; ar; SList ps; g] =>
+      match d_bool ar, d_list d_pred ps, (match g with
+                                          | SList [SAtom "count"] => Some ACount
+                                          | SList [SAtom "sum"; b] => option_map ASum (d_pa b)
+                                          | _ => None end) with
+      | Some ar', Some ps', Some g' =>
+          Some {| k_coll := {| c_base := base; c_ctype := ct; c_bank := bank; c_arrow := ar' |}; k_preds := ps'; k_agg := g' |}
+      | _, _, _ => None
       end
   | _ => None
   end.
